@@ -367,22 +367,22 @@ good_without = {"fixture": [], "outcomes": [(None, [ROW]) for _ in unm], "state"
 v = c16.nops_verdicts(PSET, good_with, good_without)
 check("verdicts all fine", [x[2] for x in v], [False] * (len(c16.S_STMTS) + 1))
 check("verdict classes", sorted({(x[0], x[1]) for x in v}), [
-    ("C16.nop.match", "set:final-state,kinds=backref+group"),
+    ("C16.nop.match", "set:final-state,size=2"),
     ("C16.nop.match", "set:matched-by=backref@later"),
     ("C16.nop.match", "set:matched-by=group@first"),
-    ("C16.nop.other", "set:unmatched,kinds=backref+group"),
+    ("C16.nop.other", "set:unmatched,size=2"),
 ])
 bad_with = dict(good_with, outcomes=[(None, [ROW]) for _ in c16.S_STMTS])  # the matching statements were executed
 v = c16.nops_verdicts(PSET, bad_with, good_without)
 check("verdict first divergence only", [(x[1], x[2]) for x in v if x[2]], [("set:matched-by=group@first", True)])
 check("verdict stops", v[-1][3]["statement"], "grant select on t to role r")
 v = c16.nops_verdicts(PSET, dict(good_with, state=("D2", "T", False)), good_without)
-check("verdict final state", [(x[0], x[1]) for x in v if x[2]], [("C16.nop.match", "set:final-state,kinds=backref+group")])
+check("verdict final state", [(x[0], x[1]) for x in v if x[2]], [("C16.nop.match", "set:final-state,size=2")])
 v = c16.nops_verdicts(PSET, dict(good_with, fixture=[("create table t", "re.error", None, None)]), good_without)
-check("verdict fixture", [(x[0], x[1], x[2]) for x in v], [("C16.nop.other", "set:unmatched,kinds=backref+group", True)])
+check("verdict fixture", [(x[0], x[1], x[2]) for x in v], [("C16.nop.other", "set:unmatched,size=2", True)])
 diff_without = dict(good_without, outcomes=[(None, [ST])] + good_without["outcomes"][1:])
 v = c16.nops_verdicts(PSET, good_with, diff_without)
-check("verdict unmatched differs", [(x[0], x[1]) for x in v if x[2]], [("C16.nop.other", "set:unmatched,kinds=backref+group")])
+check("verdict unmatched differs", [(x[0], x[1]) for x in v if x[2]], [("C16.nop.other", "set:unmatched,size=2")])
 
 # ---- 7c. flows ------------------------------------------------------------------------------------------------------
 check("flow literal sq", c16.flow_literal("sq", "bs_bs"), "'a" + chr(92) * 2 + "b'")
